@@ -161,6 +161,8 @@ type Gen struct {
 	vseq     int
 	late     int
 	kinds    []string
+
+	allowEmptyBatch bool // genRow may return batch exchanges without components (C09, locked world only)
 }
 
 // NewGen creates a generator.
